@@ -406,7 +406,7 @@ class C08(DiffProperty):
                   "is proved.  fail_leaves_target holds "
                   "by construction of the model (temporary forest merged only on success) and is checked on the code by the harness.  "
                   "The path buffer (copy-on-write array) is abstracted to its bytes, allocation failure is not modelled.  The theorems "
-                  "hold for the tree with the fix: commits listed in docs/notes_C08.md.  All 9 theorems are closed under the global "
+                  "hold for /repo main with the fix: commits listed in docs/notes_C08.md.  All 9 theorems are closed under the global "
                   "context (no axioms).")
     technique = "Coq proof (parser-state invariant by induction over the input) + differential correspondence check"
     assumptions = ["allocation succeeds", "getc returns each byte once and then -2 (a negative element in the model input stands for a read error)"]
